@@ -23,7 +23,7 @@ REQUIRED = ["range_checked:fixed_alternative_mean", "range_checked:shrink_trunc"
 ASSUMPTIONS = ["mu_j recomputed by an independent loop; 'mu_j < u' for the strict clause means mu_j < u(1-1e-6), the "
                "tolerance the tests themselves use for mu_j = u", "fixed_bet's lambda is the user's; lambda <= 1/u is "
                "generated (the C01 quantifier)", "optimal_comparison mostly with u > 1 (comparison audits), u <= 1 in 20 % of its cases"]
-N_CASES = {"quick": 40000, "thorough": 1200000}
+N_CASES = {"quick": 128000, "thorough": 1200000}
 RANGE_COMBOS = [c for c in nn.COMBOS if c[1] or c[2]] + [("wald_sprt", None, None), ("kaplan_kolmogorov", None, None)]
 
 
